@@ -964,3 +964,56 @@ def s_anyrank_merge_shapes(ctx):
 
 SCENARIOS.append(Scenario("C09.folding.merge_shapes[any rank]", s_anyrank_merge_shapes, [(REL, "_merge_shapes"), (REL, "_merge_shapes.merge_dims")],
                           trusted=_TRA, assumptions=_ASA))
+
+
+def s_anyrank_size(ctx):
+    """size (Size(x)) for shapes of ANY rank: a Constant is returned only if every dim is static, and its value is the product of the
+    run-time extents (the spec product is defined by recursion on the position: Prod(0) = 1, Prod(k+1) = Prod(k) * extent(k); the loop
+    invariant is `size == Prod(k)`, so only the defining equation at the current position is needed — no nonlinear reasoning)."""
+    from pyvc.interp import LoopSpec
+    ir, SymShape, I, W, state, i0 = _anyrank(ctx)
+    X = SymShape(I, "x", forward=False)
+    n = X.rank
+    x = _val(W, "x", X, ir.DataType.FLOAT)
+    node = W.node("Size", [x])
+    op = OpRecorder()
+    Prod = z3.Function("Prod", z3.IntSort(), z3.IntSort())    # product of the first k extents (forward order)
+    ctx.assume(Prod(0) == 1)
+
+    def ext(k):   # run-time extent of forward position k
+        p = n - 1 - k
+        X.facts(p)
+        return X.rt(p), p
+
+    def mk_size(interp):
+        return SInt(ctx.int("size"))
+
+    def inv(interp, env, k, pre, it):
+        sz = env.lookup("size")
+        if not isinstance(k, int):
+            e, _p = ext(k)
+            ctx.assume(Prod(k + 1) == Prod(k) * e)            # defining equation of the spec product at this position
+        st = term(sz)
+        return [("size_is_the_product_of_the_extents_seen_so_far", st == Prod(k)),
+                ("every_dim_seen_so_far_is_static", z3.Implies(z3.And(i0 < k, i0 < n), X.kind(n - 1 - i0) == 0))]
+    I.loops[("size", 0)] = LoopSpec({"size": mk_size}, inv)
+    try:
+        r = run_eval(I, _cf().size, node, op, state)
+    except PyRaise:
+        ctx.check("C04.folding.size.any_rank.never_raises", False, CL04)
+        return
+    if r is None:
+        ctx.cover("size.any_rank.kept")
+        return
+    ok = isinstance(r, Call) and r.op == "Constant" and set(r.kwargs) == {"value_int"}
+    ctx.check("C03.folding.size.any_rank.replacement_is_a_constant_int", ok, CL09)
+    if not ok:
+        return
+    ctx.cover("size.any_rank.constant")
+    X.facts(n - 1 - i0)
+    ctx.check("C09.folding.size.any_rank.constant_only_if_every_dim_is_static", z3.Implies(i0 < n, X.kind(n - 1 - i0) == 0), CLR)
+    ctx.check("C09.folding.size.any_rank.constant_is_the_product_of_the_runtime_extents", term(r.kwargs["value_int"]) == Prod(n), CLR)
+
+
+SCENARIOS.append(Scenario("C09.folding.size[any rank]", s_anyrank_size, [(REL, "size")], trusted=_TRA,
+                          assumptions=_ASA + ["the product of the extents is the recursively defined Prod; machine integers treated as mathematical"]))
